@@ -28,7 +28,9 @@ def scenarios(tier):
         S(["E", "E2"], ["--library=posix", "--library=gnu"]),  # library data
         S(["Y", "E"], ["--error-exitcode=3"]),                 # critical errors
         S(["SB", "SM"], ["--inline-suppr", "--enable=style"]),
-    ]
+        # findings whose messages contain non-printable bytes, written to the build-dir cache by the workers themselves
+        (S(["X", "X2"], ["--enable=style"], builddir=True), 0),   # ~770 choice points (build dir => checker log messages):
+    ]                                                               # default schedules in quick, all 1-preemption schedules in thorough
     if tier == "thorough":
         out += [
             S(["HU1", "HU2"], ["--inline-suppr", INFO]),
@@ -59,6 +61,9 @@ def main(tier, replay=None, only=None):
     explore.shim()
     bound = 1 if tier == "quick" else 2
     jobs_list = [2] if tier == "quick" else [2, 3]
+    import os
+    if only is None and os.environ.get("VERIF_C16_ONLY"):
+        only = int(os.environ["VERIF_C16_ONLY"])
     if replay:
         a = replay["artefact"]
         sc = par.Scenario(a["letters"], a["opts"]).setup()
@@ -77,8 +82,15 @@ def main(tier, replay=None, only=None):
         sc.setup()
         try:
             for jobs in jobs_list:
-                pool = explore.ServerPool(lambda sc=sc, jobs=jobs: explore.Server(sc.args(jobs, "thread"), sc.ws.dir, "t",
-                                                                                 variant="tsan", env=TSAN))
+                def factory(sc=sc, jobs=jobs):
+                    bd = sc.fresh_bdir()
+                    srv = explore.Server(sc.args(jobs, "thread", bd), sc.ws.dir, "t", variant="tsan", env=TSAN)
+                    if bd:      # every schedule must start from the same build-dir state: drop what the previous run cached
+                        import glob, os
+                        srv.pre_run = lambda bd=bd: [os.unlink(f) for f in glob.glob(os.path.join(bd, "*"))
+                                                     if not f.endswith("files.txt")]
+                    return srv
+                pool = explore.ServerPool(factory)
                 st = explore.Stats()
 
                 def visit(x, sc=sc, jobs=jobs, pool=pool):
